@@ -11,7 +11,10 @@ an independent decoder.  Streams:
   interleave : garbage and a valid request queued in the same instant (both orders): the
                valid one must be answered with exactly the baseline reply
   followup   : after each garbage batch a valid ReadProperty must be answered correctly
-Model side: lean/Drv/C10.lean (receive pipeline as a total function) — see notes/C10.md.
+Model side (c10_model.py): the SAME batches (`batches`) + constructed histories on an
+instrumented real device and, in lockstep, on lean/Drv/C10.lean (Model.Device: the
+receive pipeline as a total function; theorems in Props/C10.lean) — frames compared
+octet for octet per datagram, transaction lists before/after quiescence; see notes/C10.md.
 """
 import os
 from . import core
@@ -24,10 +27,20 @@ RULE = ("valid request frames of every supported/unsupported service produced by
         "single-octet substitutions, truncations, insertions; random octets at link / network / application "
         "level; same-instant interleavings with a valid request; follow-up valid request.  distinct = "
         "(template, mutation kind, position class, reply class) signatures")
-TRUSTED = ["independent frame classifier/decoder in harness/c10_impl.py + harness/e2e.py",
+TRUSTED = ["lean/BacVerif/Model/Device.lean is a hand transcription of the receive path (NetworkAdapter.confirmation, "
+           "NetworkServiceAccessPoint.process_npdu/indication, ApplicationServiceAccessPoint.indication) composed "
+           "of the C02/C03/C07/C08/C11 models; tied by the model/* lockstep streams of harness/c10_model.py",
+           "the application is abstract in the model: its answer (recorded on the real device) is an INPUT of the "
+           "model run; a body the model's decoder accepts (leaves checked for tag/length only) but the real decoder "
+           "rejects is taken as the application's answer (counted as model/leaf-reject; 0 in 880 k cases)",
+           "independent frame classifier/decoder in harness/c10_impl.py + harness/e2e.py",
            "Python exceptions are a runtime notion: the model pipeline is total by construction, the claim "
            "about the code rests on the correspondence + oracle streams"]
 ASSUMPTIONS = ["link = vlan.Node frames; B/IP (BVLL) link garbage is exercised by C09/C13",
+               "theorem hypotheses: the DCC gate lets the request in (a disabled device is silent by design), no "
+               "transaction of the same (sender, invoke id) in progress, proposed window < 256, timeouts non-zero",
+               "single adapter without network number, unicast link frames; the application answers every "
+               "indication (Application.indication turns every exception into a reply: exercised by the helper/* batches)",
                "only unsegmented confirmed requests are owed a reply by the oracle; segmented-request "
                "fragments are checked for residue only"]
 
@@ -240,7 +253,35 @@ def model_side(ctx):
 
 
 def search(ctx):
+    """the focused failing-input search runs inside the model-side judge: every disagreeing batch is
+    re-examined by `c10_model.reference_oracle` (silence / malformed request acknowledged / residue)"""
     pass
+
+
+def batch_judge(frames, out, residue):
+    """property failures of one injected batch (the per-frame `judge` would take the replies
+    to the OTHER frames of a batch for foreign ones)"""
+    if len(frames) == 1:
+        return C.judge(frames[0], out, residue)
+    fails = []
+    if not out["terminated"]:
+        return [("nontermination", "device still busy after the loop limit")]
+    replies = [h for (h, _r) in out["replies"] if h and h.get("type") in C.REPLY_TYPES]
+    owed = [C.classify(fr) for fr in frames]
+    dcc = [i for i, fr in enumerate(frames) if is_dcc(fr)]
+    silenced = bool(dcc) and dcc[0] < len(frames) - 1
+    for inv in sorted(set(i for (k, i) in owed if k == "confirmed")):
+        mine = [h for h in replies if h.get("invoke") == inv]
+        same = len([1 for (k, i) in owed if k == "confirmed" and i == inv])
+        if not mine and not silenced:
+            fails.append(("silence", "confirmed request (invoke %d) got no reply" % inv))
+        elif len([h for h in mine if not h.get("seg")]) > same:
+            fails.append(("many-replies", "confirmed request (invoke %d) got %d replies" % (inv, len(mine))))
+    if residue["client"] or residue["server"]:
+        fails.append(("residue-transaction", "leftover transactions %r" % (residue,)))
+    if residue["ssm_timers"]:
+        fails.append(("residue-timer", "leftover transaction timers %r" % (residue,)))
+    return fails
 
 
 def replay(ctx, payload):
@@ -249,16 +290,21 @@ def replay(ctx, payload):
     frames = [bytes.fromhex(h) for h in case.get("frames", [])]
     if not frames:
         raise core.Infra("nothing to replay")
+    stream = case.get("stream") or ""
+    ctx.count("replay", "replay")
+    if stream.startswith("model/"):
+        # found by the model-side streams: their oracle (and the comparison with the model) decides
+        from . import c10_model
+        c10_model.replay_frames(ctx, frames, case.get("template") or "replay", stream[6:])
+        return
     Device = C.build()
     dev = Device()
     out = dev.inject(frames)
-    for fr in frames:
-        for k, w in C.judge(fr, out, dev.residue()):
-            ctx.fail(k, case, w)
-    ctx.count("replay", "replay")
+    for k, w in batch_judge(frames, out, dev.residue()):
+        ctx.fail(k, case, w)
     if getattr(ctx, "model_ok", False):
         try:
             from . import c10_model
         except ImportError:
             return
-        c10_model.replay_frames(ctx, frames)
+        c10_model.replay_frames(ctx, frames, "replay", "replay")
